@@ -208,9 +208,11 @@ func checkWriteErrorDiscipline(c *kit.Ctx, k *keyer, rule string) {
 	c.Floor(rule, "WriteAt sites examined for error discipline", n, 1)
 }
 
-// checkWriterRecordsError: in PieceWriter.Run, after Piece.Write the result is
-// delivered only once that call's error has been stored into
-// PieceWriter.Error on every path (no filtering of write errors).
+// checkWriterRecordsError: in PieceWriter.Run (and the helpers it calls, walked
+// in Run's own context), after Piece.Write the result is delivered only once
+// that call's error has been stored into PieceWriter.Error on every path (no
+// filtering of write errors). The fact is keyed on the callee object and the
+// field, so the write and the delivery may each be moved into a helper.
 func checkWriterRecordsError(c *kit.Ctx, k *keyer, rule string) {
 	run := c.Func("internal/piecewriter", "(*PieceWriter).Run")
 	fError := c.Field("internal/piecewriter", "PieceWriter", "Error")
@@ -219,8 +221,13 @@ func checkWriterRecordsError(c *kit.Ctx, k *keyer, rule string) {
 		_, isCall := ins.(*ssa.Call)
 		return isCall && kit.CallsAny(ins, pieceWrite)
 	}
-	fl := (&kit.Flow{P: c.Prog, Fn: run, Entry: true, Instr: func(ins ssa.Instruction, in bool) bool {
-		if isWrite(ins) {
+	writeFn := c.Func("internal/filesection", "(Piece).Write")
+	spec := &kit.Spec{P: c.Prog, Deep: kit.DefaultDeep, Instr: func(ins ssa.Instruction, in bool) bool {
+		// The call of Piece.Write opens the obligation. With callee summaries the
+		// flow engine lets the callee's body decide the value after a call that
+		// is not a generator, which would undo this kill: so every instruction of
+		// Piece.Write's own body kills as well (its summary is then "false").
+		if isWrite(ins) || ins.Parent() == writeFn {
 			return false
 		}
 		if v, ok := kit.StoresField(ins, fError); ok {
@@ -230,26 +237,44 @@ func checkWriterRecordsError(c *kit.Ctx, k *keyer, rule string) {
 			}
 		}
 		return in
-	}}).Solve()
+	}}
 	n := 0
-	kit.Instrs(run, func(ins ssa.Instruction) {
-		deliver := false
-		switch x := ins.(type) {
-		case *ssa.Send:
-			deliver = true
-		case *ssa.Select:
-			for _, st := range x.States {
-				if st.Dir == types.SendOnly {
-					deliver = true
-				}
-			}
-		}
-		if !deliver {
+	spec.VisitDown(run, true, 2, func(ins ssa.Instruction, before bool) {
+		if !isResultDelivery(c, ins) {
 			return
 		}
 		n++
-		c.Check(fl.Before(ins), rule, k.key(run, "deliver with recorded write error"), posOf(ins),
+		c.Check(before, rule, k.key(ins.Parent(), "deliver with recorded write error"), posOf(ins),
 			"on every path from Piece.Write to the result delivery the write's error is stored into PieceWriter.Error", "the writer can deliver its result although the error of Piece.Write was not recorded on some path (a filtered / dropped write error makes a failed write look successful: bit set and persisted without the data on disk)")
 	})
 	c.Floor(rule, "result deliveries in PieceWriter.Run", n, 1)
+}
+
+// isResultDelivery recognises a channel send (plain or as a select case) of a
+// *PieceWriter: the delivery of the writer's result, wherever it sits.
+func isResultDelivery(c *kit.Ctx, ins ssa.Instruction) bool {
+	tPW := c.Named("internal/piecewriter", "PieceWriter")
+	isPWChan := func(ch ssa.Value) bool {
+		t, ok := ch.Type().Underlying().(*types.Chan)
+		if !ok {
+			return false
+		}
+		p, ok := t.Elem().(*types.Pointer)
+		if !ok {
+			return false
+		}
+		n, ok := p.Elem().(*types.Named)
+		return ok && n == tPW
+	}
+	switch x := ins.(type) {
+	case *ssa.Send:
+		return isPWChan(x.Chan)
+	case *ssa.Select:
+		for _, st := range x.States {
+			if st.Dir == types.SendOnly && isPWChan(st.Chan) {
+				return true
+			}
+		}
+	}
+	return false
 }
